@@ -33,6 +33,13 @@
 
 namespace srun {
 
+const std::vector<ExtraDef>& extra_catalogue() {
+    static const std::vector<ExtraDef> c = {{"VEXTRA", Opm::UnitSystem::measure::pressure}, {"LEXTRA", Opm::UnitSystem::measure::length}, {"IEXTRA", Opm::UnitSystem::measure::identity},
+                                             {"TEXTRA", Opm::UnitSystem::measure::time}, {"QEXTRA", Opm::UnitSystem::measure::liquid_surface_rate}};
+    return c;
+}
+
+
 using namespace Opm;
 
 static std::uint64_t name_hash(const std::string& s) { return sim::digest(s.data(), s.size()); }
@@ -67,7 +74,8 @@ std::unique_ptr<World> World::create(const std::string& deck_text, const RunCfg&
     if (restart_step >= 0) {
         std::vector<RestartKey> keys = {{"PRESSURE", UnitSystem::measure::pressure}, {"SWAT", UnitSystem::measure::identity},
                                         {"SGAS", UnitSystem::measure::identity}, {"RS", UnitSystem::measure::gas_oil_ratio}};
-        std::vector<RestartKey> extra = {{"VEXTRA", UnitSystem::measure::pressure, false}};
+        std::vector<RestartKey> extra;
+        for (size_t k = 0; k < extra_catalogue().size(); ++k) if (cfg.extra_mask & (1u << k)) extra.push_back({extra_catalogue()[k].key, extra_catalogue()[k].dim, false});
         w->restored = w->io->loadRestart(w->astate, *w->st, keys, extra);
         w->astate.load_rst((*w->sched)[static_cast<size_t>(restart_step)].actions(), *w->rst);
         w->udq->load_rst(*w->rst);
@@ -226,7 +234,8 @@ bool World::run(int first, int last, Observer* obs) {
             if (obs) obs->after_eval(*this, r, t, dt, xw);
             const bool substep = t < t1;
             RestartValue rv(sol, xw, xg, {});
-            rv.addExtra("VEXTRA", UnitSystem::measure::pressure, std::vector<double>{1.0e5 * r, 2.5e5, t});
+            for (size_t k = 0; k < extra_catalogue().size(); ++k) if (cfg.extra_mask & (1u << k))
+                rv.addExtra(extra_catalogue()[k].key, extra_catalogue()[k].dim, std::vector<double>{1.0e5 * r + static_cast<double>(k), 2.5e5 / static_cast<double>(k + 1), t});
             sim::fs::note("writeTimeStep", static_cast<std::uint64_t>(r) * 1000 + q);
             io->writeTimeStep(astate, wtest, *st, *udq, r, substep, t, rv, cfg.write_double);
             if (sim::fs::dead()) return false;
